@@ -749,7 +749,12 @@ class ItemGrader(AbstractGrader):
             self.inferring_answers = True
 
         # And punt the actual __call__ function to the superclass
-        return super(ItemGrader, self).__call__(expect, student_input, **kwargs)
+        try:
+            return super(ItemGrader, self).__call__(expect, student_input, **kwargs)
+        finally:
+            # If the input was refused before grading began, the log created above would
+            # otherwise be kept and shown (with the old input) on the next call
+            self.log_created = False
 
     def infer_from_expect(self, expect):
         """
